@@ -1,4 +1,5 @@
 import Fpdec.Kernels.FromStr
+import Fpdec.Kernels.Parse
 import Fpdec.Lemmas.Parse
 import Fpdec.Lemmas.IntTy
 import Fpdec.Props.C18_Sites
@@ -158,5 +159,9 @@ theorem kernel_decimal_from_str (prof : Profile) (lit : List Nat) : Gen.K.decima
 theorem kernel_dec_fold (prof : Profile) (src : List Nat) :
     Gen.K.dec_fold prof (macroStripBlank src) =
       (fun r => r.map (fun d : Dec => (d.coeff, d.nfrac))) <$> macroFold prof src := Kernels.dec_fold_eq prof src
+
+/-- the parser `Dec!` runs at compile time, as translated on this run -/
+theorem kernel_str_to_dec (prof : Profile) (lit : List Nat) (h : lit.length < 2 ^ 63) :
+    Gen.K.str_to_dec prof lit = strToDec prof lit := Kernels.str_to_dec_eq prof lit h
 
 end Fpdec.Props.C18
